@@ -48,14 +48,14 @@ PROPS = {
                         'Redis sketches narrower than gopher-lua\'s unpack limit (finding D24 otherwise)'],
     },
     'C04': {
-        'lean_modules': ['C04'],
-        'required_theorems': ['C04_size', 'C04_nodup', 'C04_count_bounds', 'C04_unreported_light', 'C04_exact_without_collisions',
+        'lean_modules': ['C04', 'C04E2E'],
+        'required_theorems': ['C04_end_to_end_mem', 'C04_end_to_end_redis', 'C04_size', 'C04_nodup', 'C04_count_bounds', 'C04_unreported_light', 'C04_exact_without_collisions',
                               'C04_values_sorted', 'C04_mem_refines_spec', 'C04_redis_refines_spec'],
         'suites': ['topk'],
         'level': 'proof',
         'explanation': 'Lean: nondeterministic Top-K specification (any tie resolution) with size/no-duplicate/count-bound/unreported-light/exactness theorems for every history whose estimates satisfy the Count-Min bounds; '
                        'container/heap (up/down/Push/Pop/Remove) and the sorted-set variant are proved to refine it. Suite `topk` replays every observed Insert (sketch update, estimate, heap transition) and Values of both backends through the model.',
-        'assumptions': ['estimates satisfy the Count-Min bounds of C03 (EstOK); counts >= 1; scores < 2^53 in Redis',
+        'assumptions': ['C04_end_to_end_{mem,redis} discharge the estimate hypothesis EstOK from the Count-Min theorems of C03: no hypothesis on estimates remains; scores < 2^53 in Redis',
                         'element names valid UTF-8 without protocol separators in the correspondence suite'],
     },
     'C05': {
@@ -128,8 +128,8 @@ PROPS = {
     },
 
     'C08': {
-        'lean_modules': ['C08', 'C04'],
-        'required_theorems': ['C08_cms_update', 'C08_cms_count', 'C08_cms_merge', 'C08_hll_update', 'C08_hll_merge', 'C08_bloom_insert', 'C08_bloom_lookup',
+        'lean_modules': ['C08', 'C04', 'C08Cuckoo', 'C08TopK'],
+        'required_theorems': ['C08_cuckoo_until_kick', 'C08_topk_no_tie_equal', 'C08_topk_history', 'C08_cms_update', 'C08_cms_count', 'C08_cms_merge', 'C08_hll_update', 'C08_hll_merge', 'C08_bloom_insert', 'C08_bloom_lookup',
                               'C04_mem_refines_spec', 'C04_redis_refines_spec'],
         'suites': ['lockstep', 'redistie', 'cms', 'hll', 'bloom', 'topk'],
         'level': 'proof',
